@@ -260,6 +260,21 @@ EXTRA10 = {
     "C20": ("predicate link_is_single; R-PROV weak string rendering", "Also decides when a link is encoded as a single element."),
 }
 
+EXTRA11 = {
+    "C02": ("C07.e (after_state) in the export mechanism", "Also decides whether a transaction behind a gap emits an update."),
+    "C03": ("type-api: unset_missing, apply_delta dispatch, kind of the type a preliminary value creates", "Also decides the attribute bookkeeping of attributed inserts and the dispatch of deltas."),
+    "C04": ("block-wire mechanism with the tightened packing rule of the origin-clock column", "Also decides how the v2 origin-clock column packs negative runs."),
+    "C06": ("every kind of slice is trimmed (kinds_reaching over BlockSlice)", "Also decides that Skip slices are trimmed like GC slices."),
+    "C07": ("R-TABLE subscription ↔ event list", "Also decides that v1 / v2 subscribers are registered on their own list."),
+    "C09": ("column codec pairs agree on their primitives", "Also decides the primitive each RLE column travels in."),
+    "C10": ("R-GUARD parse-layer validation sites (checked arithmetic with error propagation)", "Also decides that the range invariants of decoded values are established while parsing."),
+    "C11": ("R-TABLE every event kind bubbles (set_current_target)", "Also decides that deep observers see a current target for every kind of event."),
+    "C12": ("predicate branch_eq (scope test)", "Also decides what the scope test compares."),
+    "C16": ("R-PROV tiling of IdMap::attributions", "Also decides that attribution answers tile the queried range."),
+    "C17": ("R-GUARD presence by count in BlockIter::read_value", "Also decides what makes Array::get answer Some."),
+    "C20": ("unquote walks from the head of the start element's parent", "Also decides where dereferencing starts its walk."),
+}
+
 PENDING = {
 }
 
@@ -268,7 +283,7 @@ def main():
     checks = []
     for pid in sorted(CHECKS):
         tech, text, ref = CHECKS[pid]
-        for ex in (EXTRA, EXTRA2, EXTRA3, EXTRA4, EXTRA5, EXTRA6, EXTRA7, EXTRA8, EXTRA9, EXTRA10):
+        for ex in (EXTRA, EXTRA2, EXTRA3, EXTRA4, EXTRA5, EXTRA6, EXTRA7, EXTRA8, EXTRA9, EXTRA10, EXTRA11):
             if pid in ex:
                 tech = tech + "; " + ex[pid][0]
                 text = text + " " + ex[pid][1]
